@@ -106,6 +106,46 @@ pub enum OddVariants { #[darling(rename = "{}")] A, #[darling(rename = "item{s}"
 #[darling(attributes(a))]
 pub struct OddNamesDi { #[darling(multiple, rename = "it{em")] pub a: Vec<u32>, #[darling(default, rename = "}")] pub b: u32 }
 
+// receivers assembled by `macro_rules!` helpers: the derive line and the options come from the
+// macro body, the members from the invocation (and the other way round), so generated locals and
+// member names carry different hygiene marks
+mod mac {
+    macro_rules! recv {
+        ($tr:ident, [$($opt:tt)*], $name:ident { $( $(#[$m:meta])* $f:ident : $t:ty ),* $(,)? }) => {
+            #[derive(darling::$tr)]
+            #[darling($($opt)*)]
+            pub struct $name { $( $(#[$m])* pub $f: $t ),* }
+        };
+    }
+    recv!(FromMeta, [default], M1 { a: u32, #[darling(multiple)] b: Vec<u32>, #[darling(flatten)] c: super::Flat, #[darling(skip)] d: u8, #[darling(default)] e: Option<u32>, #[darling(map = super::ident_u32)] f: u32, #[darling(default = super::seven)] g: u32, #[darling(with = |m| <u32 as darling::FromMeta>::from_meta(m))] h: u32 });
+    impl Default for M1 { fn default() -> Self { loop {} } }
+    recv!(FromMeta, [], M1b { a: u32, #[darling(multiple, rename = "bb")] b: Vec<u32>, #[darling(and_then = super::ok_u32)] c: u32 });
+    recv!(FromDeriveInput, [attributes(a), forward_attrs, supports(any)], M2 { ident: syn::Ident, attrs: Vec<syn::Attribute>, generics: syn::Generics, vis: syn::Visibility, data: darling::ast::Data<darling::util::Ignored, darling::util::Ignored>, #[darling(default)] k: u32 });
+    recv!(FromDeriveInput, [attributes(a), forward_attrs(doc), supports(struct_named)], M2b { attrs: Vec<syn::Attribute>, #[darling(with = super::mac::body)] data: u8, #[darling(multiple)] k: Vec<u32> });
+    pub fn body(_: &syn::Data) -> darling::Result<u8> { Ok(0) }
+    recv!(FromField, [attributes(a), forward_attrs(doc)], M3 { ident: Option<syn::Ident>, attrs: Vec<syn::Attribute>, ty: syn::Type, vis: syn::Visibility, #[darling(multiple)] k: Vec<u32> });
+    recv!(FromVariant, [attributes(a), forward_attrs, supports(unit, newtype)], M4 { ident: syn::Ident, attrs: Vec<syn::Attribute>, fields: darling::ast::Fields<darling::util::Ignored>, discriminant: Option<syn::Expr> });
+    recv!(FromTypeParam, [attributes(a), forward_attrs], M5 { ident: syn::Ident, attrs: Vec<syn::Attribute>, bounds: Vec<syn::TypeParamBound>, default: Option<syn::Type> });
+    recv!(FromAttributes, [attributes(a)], M6 { #[darling(default)] k: u32, #[darling(multiple)] m: Vec<u32> });
+    recv!(FromField, [attributes(a), forward_attrs, from_ident], M7 { ident: Option<syn::Ident>, #[darling(with = super::mac::count)] attrs: usize, k: u32 });
+    pub fn count(v: Vec<syn::Attribute>) -> darling::Result<usize> { Ok(v.len()) }
+    impl From<Option<syn::Ident>> for M7 { fn from(i: Option<syn::Ident>) -> Self { M7 { ident: i, attrs: 0, k: 0 } } }
+    // the other way round
+    macro_rules! on_fixed { ($(#[$m:meta])* $name:ident) => { $(#[$m])* pub struct $name { pub ident: syn::Ident, pub attrs: Vec<syn::Attribute>, #[darling(default)] pub k: u32, #[darling(multiple)] pub m: Vec<u32> } } }
+    on_fixed!(#[derive(darling::FromDeriveInput)] #[darling(attributes(a), forward_attrs)] N1);
+    on_fixed!(#[derive(darling::FromVariant)] #[darling(attributes(a), forward_attrs(doc))] N2);
+    // variants from the invocation
+    macro_rules! en { ($name:ident { $($v:tt)* }) => { #[derive(darling::FromMeta)] pub enum $name { $($v)* } } }
+    en!(ME { A, B(u32), C { x: u32, #[darling(default)] y: Option<u32>, #[darling(multiple)] z: Vec<u32> }, #[darling(skip)] D });
+    // the type name alone from the invocation, generic parameters from the body
+    macro_rules! named { ($name:ident) => { #[derive(darling::FromMeta)] pub struct $name<T> { pub a: T, #[darling(default)] pub b: Option<T> } } }
+    named!(MG);
+    pub fn instantiate() {
+        fn m<X: darling::FromMeta>() {}
+        m::<M1>(); m::<M1b>(); m::<ME>(); m::<MG<u8>>();
+    }
+}
+
 // non-capturing closures in every position that accepts one
 #[derive(Debug, darling::FromMeta)]
 #[darling(from_word = || Ok(Closures { a: 1, b: 2 }), from_none = || None)]
@@ -124,6 +164,7 @@ fn main() {
     fn need_field<X: darling::FromField>() {}
     need_field::<SkipFromFn>();
     need_meta::<EClosures>();
+    mac::instantiate();
     need_meta::<OddNames>();
     need_meta::<OddVariants>();
     fn need_di<X: darling::FromDeriveInput>() {}
